@@ -507,3 +507,13 @@ Proof.
   intros. unfold numba_isd. f_equal. apply map2_ext. intros row fs.
   rewrite <- sumR_scale. f_equal. rewrite map_map2. apply map2_ext. intros; ring.
 Qed.
+
+(* combined forms used by Properties/C02.v *)
+Lemma wrap360_range_and_congruence : forall d,
+  wrap360 d = fmod (d + 180) 360 - 180 /\ -180 <= wrap360 d < 180 /\ cong360 (wrap360 d) d.
+Proof. intros d. exact (conj (wrap360_alt d) (conj (wrap360_range d) (wrap360_cong_self d))). Qed.
+
+Lemma dstep_uniform_both : forall t0 dl th,
+  ugrid t0 dl th -> -180 <= dl < 180 ->
+  dstep th = repeat dl (length th) /\ sumR (dstep th) = 360.
+Proof. intros t0 dl th U H. exact (conj (dstep_uniform t0 dl th U H) (dstep_uniform_sum t0 dl th U H)). Qed.
